@@ -49,11 +49,12 @@ def safe(f, *a, **k):
     except RecursionError:
         return 'EXC:RecursionError'
     except BaseException as e:
+        # the properties pin the exception class and, for decode errors, the position - not the wording
         d = ''
-        for at in ('lineno', 'offset', 'message'):
+        for at in ('lineno', 'offset'):
             if hasattr(e, at):
                 d += f'|{at}={getattr(e, at)!r}'
-        return f'EXC:{type(e).__name__}:{str(e)[:80]}{d}'
+        return f'EXC:{type(e).__name__}{d}'
 
 
 def category(name, secs=20):
@@ -114,6 +115,10 @@ HAND = [
     '(a / alpha :ARG0 1e3 :ARG1 0x10 :ARG2 1_0 :ARG3 NaN :ARG4 Infinity :ARG5 -Infinity :ARG6 true :ARG7 null :ARG8 01 :ARG9 1. :ARGX .5 :ARGY None)',
     '(a / alpha :ARG0 ½ :ARG1 ٣ :ARG2 １２)', '(é / été :rôle ü)', '# ::snt has # hash\n(a / alpha)', '# ::snt trailing space  \n(a / alpha)', '#::id 1\n(a/alpha)', '# :: k v\n(a / alpha)',
     '(a / alpha) # trailing', '(a / alpha # inside\n :ARG0 b)', '(a / alpha :ARG0 "#x")', '﻿(a / alpha)', '(a / alpha :ARG0\tb)', '(a/alpha :ARG0(b/beta))', '(a/alpha:ARG0 b)',
+    '(a / x :ARG1-of (_ / include-91 :ARG2 7))', '(a / alpha :ARG1-of (_ / have-mod-91 :ARG2 (b / beta)) :ARG0 (c / gamma) :accompanier b)', '(s2 / say-01 :ARG0 (i2 / i) :ARG1 (i / imagine-01 :ARG0 i2 :ARG2-of s2))',
+    '(a / alpha :ARG0xyz b :modabc c :ARG0-ofxyz d :roof e)', '(k / know-01 :^scope (b / bark-01) :^ c)', '(a / alpha :polarity~e.1 -~e.2 :wiki~1 "x~y"~2,3 :ARG1-of~6 b~7,8,9)', '(a / alpha :ARG0-of-of~e.1,3,4 (b / beta))',
+    '(a / C# :mod b)', '(a :op#1 x)', '(a / été\xa0 :mod b\u3000\n :x c)', '# ::snt hi  \n(a / b) # x\u3000', '(h2 / have-mod-91 :ARG1 (a / x) :ARG2 (b / y))', '(_2 / x :mod 7)', '(a / x :ARG0 (b / y :mod 7) :ARG1 b)',
+    '(a / alpha :foo-of (b / beta) :foo-of a)', '(c / élan :ARG0 (o / Ωmega) :ARG1 (m / 猫))', '(a / alpha :consist-of-of (b / beta) :prep-on-behalf-of-of c)',
 ]
 
 
@@ -256,6 +261,8 @@ def _():
         for s, g in good_graphs(m):
             rec((name, safe(penman.encode, g, model=m)))
             rec((name, safe(penman.encode, g, model=m, indent=None, compact=True)))
+            rec((name, safe(penman.encode, g, model=m, compact=True), safe(penman.encode, g, model=m, indent=2)))
+            rec((name, safe(pcodec.PENMANCodec(model=m).encode, g, compact=True) if m else None))
             t = safe(penman.parse, s)
             if isinstance(t, ptree.Tree):
                 g2 = safe(layout.interpret, t, m) if m else safe(layout.interpret, t)
@@ -321,6 +328,9 @@ def _():
                 t = safe(layout.reconfigure, gg, key=k)
                 rec((kn, trepr(t)))
         rec(trepr(safe(layout.reconfigure, g)))
+        gi = pgraph.Graph(list(g.triples)[::-1] if len(g.triples) < 5 else list(g.triples))
+        for kn, k in KEYS.items():
+            rec((kn, 'implicit-top', trepr(safe(layout.reconfigure, gi, key=k))))
         rec(trepr(safe(layout.reconfigure, g, top=sorted(g.variables(), key=str)[-1])))
     for s, t in good_trees(140):
         for kn, k in KEYS.items():
@@ -356,6 +366,8 @@ def _():
                     gg.epidata[t] = []
                 elif k < .55:
                     gg.epidata.setdefault(t, []).insert(0, layout.POP)
+                elif k < .7:
+                    gg.epidata.setdefault(t, []).insert(0, layout.Push(rng.choice(vs)))
             if rng.random() < .5:
                 tr = list(gg.triples)
                 rng.shuffle(tr)
@@ -382,6 +394,7 @@ def _():
     TR = ['instance(a, alpha)', 'instance(a, alpha) ^ ARG0(a, b)', 'instance(a,alpha)^ARG0(a,b)', 'instance(a , alpha) ^\nARG0(a ,b)', 'ARG0(a, "x, y")', 'ARG0(a, "x)^(y")', 'ARG0(a)', 'ARG0(a,)',
           'ARG0(, b)', 'ARG0(a, b) ^', '^ ARG0(a, b)', 'ARG0(a, b) ARG1(a, c)', 'ARG0(a, b))', 'ARG0((a, b)', 'ARG0 (a, b)', ':ARG0(a, b)', 'ARG0(a, b, c)', 'ARG0(a b)', '', 'ARG0', 'ARG0(',
           'ARG0(a, 1) ^ ARG1(a, -2.5) ^ ARG2(a, "s")', 'ARG0-of(a, b)', 'instance(a, None)', 'ARG0(a,b,)', 'a(b,c)^d(e,f)', 'ARG0(a, b~e.1)', 'ARG0(a, b) # c', 'ARG0(a,\tb)', 'ARG0(a, b)^^ARG1(a, c)',
+          'r(a,b) ^x(a,b) ^ ^y(a, b)', '^r(a, b)', 'r(a,b) ^^x(a,b)', 'Xr(a, b) ^ :r(a, b)', 'r:(a, b)', 'a(b,c) d(e,f)', 'a(b c)', 'a(b ,)', 'a(b , "s")', 'a(b ,"s")', 'a(b, c d)', 'a(b,c) ^ d', 'a(b,c) ^d',
           'ARG0(a, "x\\"y")', 'ARG0(a,, b)', 'ARG0(a, ,b)', 'ARG0( a , b )', 'ARG0(a.b, c-d)', 'ARG0(a, :b)', 'ARG0(a, /)', 'ARG0(a, ~1)', 'é(à, ü)']
     for s in TR + malformed(TR, 150, 5):
         rec(safe(penman.parse_triples, s))
@@ -404,9 +417,9 @@ def _():
     ti = _lexer.lex('(a / b :c')
     rec(safe(lambda: [ti.peek(), ti.next(), ti.expect('SYMBOL'), ti.accept('LPAREN'), ti.accept('SLASH'), ti.next(), ti.next()]))
     rec(safe(ti.peek)); rec(safe(ti.next)); rec(safe(ti.expect, 'SYMBOL')); rec(safe(ti.accept, 'SYMBOL')); rec(bool(ti))
-    e = ti.error('msg'); rec((e.lineno, e.offset, e.message, e.text))
+    e = ti.error('msg'); rec((e.lineno, e.offset))
     ti = _lexer.lex(''); rec(safe(ti.expect, 'SYMBOL')); rec(bool(ti))
-    ti = _lexer.lex('a\nb c\n'); ti.next(); rec(safe(ti.expect, 'ROLE')); tk = ti.next(); e = ti.error('m', token=tk); rec((e.lineno, e.offset, e.text, str(e)))
+    ti = _lexer.lex('a\nb c\n'); ti.next(); rec(safe(ti.expect, 'ROLE')); tk = ti.next(); e = ti.error('m', token=tk); rec((e.lineno, e.offset))
 
 
 @category('C09')
@@ -432,6 +445,14 @@ def _():
             with open(p, encoding='utf-8') as fh:
                 r5 = safe(penman.load, fh)
             rec([grepr(g) for g in r5] if isinstance(r5, list) else r5)
+            rm = safe(penman.loads, d, model=amr.model)
+            rec([grepr(g) for g in rm] if isinstance(rm, list) else rm)
+            rm2 = safe(penman.iterdecode, d, model=amr.model)
+            rec([grepr(g) for g in rm2] if isinstance(rm2, list) else rm2)
+            rm3 = safe(penman.load, p, model=amr.model)
+            rec([grepr(g) for g in rm3] if isinstance(rm3, list) else rm3)
+            if isinstance(rm, list):
+                rec(safe(penman.dumps, rm, model=amr.model)); rec(safe(penman.dumps, rm, model=amr.model, indent=1, compact=True)); rec(safe(penman.dumps, rm, compact=True)); rec(safe(penman.dumps, rm, indent=None))
             if isinstance(r1, list):
                 txt = safe(penman.dumps, r1)
                 rec(txt)
@@ -509,6 +530,7 @@ def _():
     combos = [('re',), ('de',), ('ra',), ('ib',), ('re', 'de'), ('de', 're'), ('re', 'ra'), ('ra', 're'), ('ra', 'ib'), ('re', 'de', 'ra', 'ib'), ('ra', 'de'), ('re', 're'), ('ra', 'ra'), ('de', 'ra', 're')]
     gs = [g for s, g in good_graphs(m, 130)]
     gs += [_stripped(g) for g in gs[:60]]
+    gs += [pgraph.Graph(list(g.triples)[1:] + list(g.triples)[:1], top=g.top) for g in gs[:60] if g.triples]
     for g in gs:
         for combo in combos:
             cur = g
@@ -696,7 +718,8 @@ def _():
     TS = [[('a', ':instance', 'alpha')], [('a', ':instance', 'alpha'), ('a', ':ARG0', 'b'), ('b', ':instance', 'beta')], [('a', ':r', '"x, y"'), ('a', ':r', '"x) ^ (y"'), ('a', ':r', '"q\\"q"'), ('a', ':r', '" "'), ('a', ':r', '""')],
           [('a', ':r', '"a  b"'), ('a', ':r', '"a\\nb"'), ('a', ':r', '"^"'), ('a', ':r', '"a ^\\nb"')], [('a', ':ARG0-of', 'b'), ('a.b', ':c-d', 'e_f'), ('a', ':1', '2'), ('a', ':r', '-'), ('a', ':r', '+')], [],
           [('a', ':r', 'b'), ('a', ':r', 'b')], [('a', ':r', '1.5'), ('a', ':r', '-2'), ('a', ':r', '1e3')], [('a', 'r', 'b')], [('a', ':r', None)], [('a', ':r', 1)], [('a', '::r', 'b')], [('a', ':', 'b')],
-          [('a', ':r', '"tab\there"'), ('a', ':r', '"x ^ y"'), ('a', ':r', '"  lead"'), ('a', ':r', '"trail  "')], [('é', ':rôle', 'ü')], [('a', ':r', '"(a, b)"')], [('a', ':r:s', 'b')], [('a', ':r', 'b:c')]]
+          [('a', ':r', '"tab\there"'), ('a', ':r', '"x ^ y"'), ('a', ':r', '"  lead"'), ('a', ':r', '"trail  "')], [('é', ':rôle', 'ü')], [('a', ':r', '"(a, b)"')], [('a', ':r:s', 'b')], [('a', ':r', 'b:c')],
+          [('a', ':^scope', 'b'), ('a', ':^', 'c'), ('a', ':^^up', 'd'), ('a', ':r', 'C#'), ('a', ':Xr', 'b'), ('a', ':r:', 'b'), ('v#2', ':r', 'b')]]
     for s, g in good_graphs(None, 80):
         TS.append(list(g.triples))
     for ts in TS:
